@@ -465,19 +465,6 @@ Proof.
     destruct (explicit_arg_deep (DiffSwitch cs)); [destruct Hd | discriminate].
 Qed.
 
-Theorem explicit_regs_complete_refuted :
-  exists code r, mentioned code r /\ ~ In r (explicit_regs_top code).
-Proof.
-  exists [Instr 200 0 255 (Known [Raw (SImm 7); DiffSwitch [Some (Raw (SReg (-10001) TInt)); Some (Raw (SImm 5))]])],
-         (-10001).
-  split.
-  - exists 200, 0, 255, [Raw (SImm 7); DiffSwitch [Some (Raw (SReg (-10001) TInt)); Some (Raw (SImm 5))]],
-           (DiffSwitch [Some (Raw (SReg (-10001) TInt)); Some (Raw (SImm 5))]).
-    split; [now left|]. split; [right; now left|].
-    econstructor; [now left | constructor].
-  - simpl. tauto.
-Qed.
-
 (* selecting the scan *)
 Lemma explicit_sel_complete deep code r :
   deep = true \/ switch_reg_free code = true ->
